@@ -14,6 +14,7 @@ import ZstdVerif.Lemmas.BlockRT
 import ZstdVerif.Lemmas.NCountRT
 import ZstdVerif.Lemmas.SpreadRT
 import ZstdVerif.Lemmas.DescribedTables
+import ZstdVerif.Lemmas.WeightsRT
 namespace ZstdVerif.Props.C01
 open ZstdVerif
 
@@ -300,6 +301,67 @@ theorem literals_roundtrip_compressed (ws : List Nat) (last log : Nat) (ok : Wei
   LitRT.literals_roundtrip_compressed ws last log ok hlast hlog hr1 hws single wh streams syms hwh hstreams hsyms src start srcSize ent bsm dstCap
     hsec hsingle hc hn hbsm hcap hsz
 
+open LitEnc Block LitRT HufRT HufEnc Huf HufBytes in
+/-- **literals_roundtrip_treeless**: a TREELESS literals section as ZSTD_compressLiterals lays it out when HUF_compress{1,4}X_repeat re-used
+the table of an earlier block (`hType = set_repeat`: 3/4/5-byte header, NO tree description, one or four streams under the codes of that
+table's weights) is read back by `Block.decodeLiterals` as exactly the literals and the section size, in mode `treeless`, PROVIDED the decoder
+holds the table built from those weights (`ent.huf`: installed by the block that described it, `literals_roundtrip_compressed`); the table
+stays.  (Without a table the decoder refuses the section: dictionary_corrupted.) -/
+theorem literals_roundtrip_treeless (single : Bool) (streams : ByteArray) (syms : List Nat) (weights : Array Nat)
+    (log used : Nat) (ok : WeightsOK weights log) (hlog : log ≤ 56)
+    (src : Bytes) (start srcSize : Nat) (ent : Entropy) (bsm dstCap : Nat)
+    (hent : ent.huf = some (buildTable ⟨weights, log, used⟩))
+    (hsec : src.extract start (start + (compressedLiterals single ByteArray.empty streams syms.length set_repeat).size)
+      = compressedLiterals single ByteArray.empty streams syms.length set_repeat)
+    (hsyms : ∀ s ∈ syms, ∃ hs : s < weights.size, 0 < weights[s])
+    (hstreams : hufStreams single (codesOf weights log) syms = some streams)
+    (hsingle : single = true → syms.length < 1024)
+    (hc : streams.size < syms.length) (hn : syms.length ≤ 2 ^ 17)
+    (hbsm : syms.length ≤ bsm) (hcap : syms.length ≤ dstCap)
+    (hsz : (compressedLiterals single ByteArray.empty streams syms.length set_repeat).size ≤ srcSize) (h5 : 5 ≤ srcSize) :
+    decodeLiterals src start srcSize ent bsm dstCap
+      = .ok { lits := litBytes syms, used := (compressedLiterals single ByteArray.empty streams syms.length set_repeat).size,
+              ent := { ent with huf := some (buildTable ⟨weights, log, used⟩) }, mode := .treeless,
+              streams := if single then 1 else 4 } :=
+  LitRT.literals_roundtrip_treeless single streams syms weights log used ok hlog src start srcSize ent bsm dstCap hent hsec hsyms hstreams
+    hsingle hc hn hbsm hcap hsz h5
+
+open LitEnc HufRT HufEnc Huf in
+/-- **readStats_fse**: the FSE-COMPRESSED Huffman tree description - what HUF_writeCTable_wksp writes when HUF_compressWeights pays
+(`LitEnc.fseWeights`: size byte < 128, FSE_writeNCount of the normalised counts of the weight values, the two-state FSE stream of
+FSE_compress_usingCTable; tied byte for byte to the C functions by tools/ent_huf.py) - is read back by HUF_readStats (`Huf.readStats`,
+through FSE_decompress_wksp = `FSE.decompressWeights`) as exactly the weights, the implied last weight, the table depth and the size.
+The normalised counts are a decision (FSE_normalizeCount is not modelled): any counts `WeightsRT.WeightsFseOK` accepts. -/
+theorem readStats_fse (ws : List Nat) (last log : Nat) (ok : WeightsOK (ws.toArray.push last) log) (hlast : 0 < last)
+    (hlog : log ≤ 12) (hr1 : 2 ≤ (ws ++ [last]).count 1) (hws : ws.length ≤ 255) (norm : Array Int) (L : Nat)
+    (hF : WeightsRT.WeightsFseOK norm L ws) (wh : ByteArray) (hwh : fseWeights norm L ws = some wh) (src : Bytes) (pos n : Nat)
+    (hsrc : src.extract pos (pos + wh.size) = wh) (hn : wh.size ≤ n) :
+    readStats src pos n = .ok ⟨ws.toArray.push last, log, wh.size⟩ :=
+  WeightsRT.readStats_fse ws last log ok hlast hlog hr1 hws norm L hF wh hwh src pos n hsrc hn
+
+open LitEnc Block LitRT HufRT HufEnc Huf HufBytes in
+/-- **literals_roundtrip_compressed_fse**: `literals_roundtrip_compressed` with the tree description the whole of HUF_writeCTable_wksp
+writes (`LitEnc.treeDescr`): the weights FSE-compressed when that is smaller than the direct form, else direct -/
+theorem literals_roundtrip_compressed_fse (ws : List Nat) (last log : Nat) (ok : WeightsOK (ws.toArray.push last) log)
+    (hlast : 0 < last) (hlog : log ≤ 12) (hr1 : 2 ≤ (ws ++ [last]).count 1) (hws1 : 1 ≤ ws.length) (hws : ws.length ≤ 255)
+    (norm : Array Int) (L : Nat) (hF : WeightsRT.WeightsFseOK norm L ws)
+    (single : Bool) (wh streams : ByteArray) (syms : List Nat) (hwh : treeDescr norm L ws = some wh)
+    (hstreams : hufStreams single (codesOf (ws.toArray.push last) log) syms = some streams)
+    (hsyms : ∀ s ∈ syms, ∃ hs : s < (ws.toArray.push last).size, 0 < (ws.toArray.push last)[s])
+    (src : Bytes) (start srcSize : Nat) (ent : Entropy) (bsm dstCap : Nat)
+    (hsec : src.extract start (start + (compressedLiterals single wh streams syms.length).size)
+      = compressedLiterals single wh streams syms.length)
+    (hsingle : single = true → syms.length < 1024)
+    (hc : wh.size + streams.size < syms.length) (hn : syms.length ≤ 2 ^ 17)
+    (hbsm : syms.length ≤ bsm) (hcap : syms.length ≤ dstCap)
+    (hsz : (compressedLiterals single wh streams syms.length).size ≤ srcSize) (h5 : 5 ≤ srcSize) :
+    decodeLiterals src start srcSize ent bsm dstCap
+      = .ok { lits := litBytes syms, used := (compressedLiterals single wh streams syms.length).size,
+              ent := { ent with huf := some (buildTable ⟨ws.toArray.push last, log, wh.size⟩) }, mode := .compressed,
+              streams := if single then 1 else 4 } :=
+  WeightsRT.literals_roundtrip_compressed_fse ws last log ok hlast hlog hr1 hws1 hws norm L hF single wh streams syms hwh hstreams hsyms src
+    start srcSize ent bsm dstCap hsec hsingle hc hn hbsm hcap hsz h5
+
 /-! ### sequences section, at the level of bytes: what ZSTD_encodeSequences writes, `Block.decodeSeqs` reads back -/
 
 section
@@ -398,7 +460,8 @@ open Gen FSE SeqEnc LitEnc BlockEnc Rep BlockRT in
 /-- **block_roundtrip**: let `x` be a block's content, `prev` the frame content before it, `dict` the dictionary content, and `(lits, raws)` ANY
 parse of `x` that is valid against that history (`Exec.ValidParse`: what a match finder may legally output - overlapping matches, repeat
 offsets, dictionary matches included).  Store the offsets the way the compressor does (ZSTD_finalizeOffBase / ZSTD_updateRep along its history),
-write the block body the way ZSTD_entropyCompressSeqStore_internal does (literals section raw / RLE / Huffman, nbSeq field, modes byte, RLE
+write the block body the way ZSTD_entropyCompressSeqStore_internal does (literals section raw / RLE / Huffman with a new table, described
+directly or by FSE-compressed weights (treeless: `block_roundtrip_treeless`), nbSeq field, modes byte, RLE
 symbols and FSE_writeNCount table descriptions, the three-state FSE bit stream; each sequence table predefined (`set_basic`), RLE (`set_rle`),
 described in the block (`set_compressed`) or repeated from the previous block with sequences (`set_repeat`); `pt` = the resolved decisions of
 that previous block, `none` if there is none).  Then `Block.decodeBlock` (ZSTD_decompressBlock_internal) on those bytes returns exactly the
@@ -442,6 +505,30 @@ theorem block_roundtrip_basic (dict pre prev x lits : ByteArray) (raws : List Se
       SeqRT.repOf ent2.rep = (SeqRT.storeAll (SeqRT.repOf ent.rep) raws).2 ∧ RepPos (SeqRT.repOf ent2.rep) ∧ tr.nbSeq = raws.length :=
   BlockRT.block_roundtrip_basic dict pre prev x lits raws c t src start ent bsm cap hv hx hb17 hoff hrep hc hnr hT hok H hsize hcap
 
+open Gen FSE SeqEnc LitEnc BlockEnc Rep BlockRT in
+/-- **block_roundtrip_treeless**: `block_roundtrip` with the fourth literals mode.  `hp` = the Huffman table (weights, depth) written by the
+last earlier block of the frame whose literals section wrote one (`BlockEnc.nextHuf`; `none` if there is none).  The literals may then also
+be TREELESS (`LitChoice.treeless`, `hType = set_repeat`: coded with that table, no tree description): `LitOK .treeless lits hp` asks that
+such a table exists, that every literal has a code in it, and that the section is smaller than the literals; the decoder must carry the
+table (`HufMatch hp ent`).  Afterwards it carries the table of `nextHuf hp c lits` (a block with a new table replaces it, every other block
+keeps it) - the next block starts in lock step on the Huffman side too.  With `hp = none` this is `block_roundtrip`. -/
+theorem block_roundtrip_treeless (dict pre prev x lits : ByteArray) (raws : List SeqRT.RawSeq) (c : LitChoice) (t : Tables)
+    (src : Bytes) (start : Nat) (ent : Block.Entropy) (bsm cap : Nat) (pt : Option Tables) (hp : Option HufTab)
+    (hv : Exec.ValidParse dict prev x lits (raws.map toSeq))
+    (hx : x.size ≤ bsm) (hb17 : bsm ≤ 2 ^ 17) (hoff : ∀ q ∈ raws, q.rawOffset + 3 < 2 ^ 32)
+    (hrep : RepPos (SeqRT.repOf ent.rep)) (hent : EntMatch pt ent) (hm : HufMatch hp ent)
+    (hc : LitOK c lits hp) (hrp : usesRepeat t = true → pt.isSome = true) (hT : TablesOK (Tables.resolve (pt.getD {}) t))
+    (hok : CodesOK (Tables.resolve (pt.getD {}) t) (SeqRT.storeAll (SeqRT.repOf ent.rep) raws).1)
+    (H : FrameRT.Holds src start (serializeBlockBody c lits t (SeqRT.storeAll (SeqRT.repOf ent.rep) raws).1 (pt.getD {}) hp))
+    (hsize : (serializeBlockBody c lits t (SeqRT.storeAll (SeqRT.repOf ent.rep) raws).1 (pt.getD {}) hp).size ≤ bsm)
+    (hcap : pre.size + prev.size + x.size ≤ cap) :
+    ∃ ent2 tr, Block.decodeBlock src start (serializeBlockBody c lits t (SeqRT.storeAll (SeqRT.repOf ent.rep) raws).1 (pt.getD {}) hp).size
+        ent dict { out := pre ++ prev, frameStart := pre.size, cap := cap } bsm = .ok (pre ++ prev ++ x, ent2, tr) ∧
+      SeqRT.repOf ent2.rep = (SeqRT.storeAll (SeqRT.repOf ent.rep) raws).2 ∧ RepPos (SeqRT.repOf ent2.rep) ∧ tr.nbSeq = raws.length ∧
+      EntMatch (nextTables pt t (SeqRT.storeAll (SeqRT.repOf ent.rep) raws).1) ent2 ∧ HufMatch (nextHuf hp c lits) ent2 :=
+  BlockRT.block_roundtrip_treeless dict pre prev x lits raws c t src start ent bsm cap pt hp hv hx hb17 hoff hrep hent hm hc hrp hT hok H hsize
+    hcap
+
 open HeaderW BlockEnc BlockRT in
 /-- **roundtrip** (the headline statement of this property, for the modelled back end): for every input `x`, every accepted frame-parameter
 tuple, and EVERY tiling of `x` into raw blocks, RLE blocks and compressed blocks each carrying ANY valid parse of its stretch (`FrameOK2`), the
@@ -450,13 +537,33 @@ finders, the optimal parser, the block splitter and the mode heuristics only eve
 quantifies over all of them.  Scope: sequence tables in all four modes of `symbolEncodingType_e` - predefined, RLE, described by
 FSE_writeNCount (`set_compressed`; the normalised counts are a decision, any distribution `BlockRT.TableOK` accepts) and repeated from the
 previous compressed block with sequences of the same frame (`set_repeat`; a dictionary's tables are not offered for repetition) - and
-Huffman tree descriptions in direct form (FSE-compressed tree descriptions and treeless literals are decoded by the model and checked
-per frame, but not in the serializer yet). -/
+literals raw, RLE, or Huffman-compressed with a new table whose tree description is in direct form (`LitChoice.huffman`) or whatever
+the whole of HUF_writeCTable_wksp writes, i.e. the weights FSE-COMPRESSED by HUF_compressWeights when that is smaller
+(`LitChoice.huffmanFse`; the normalised counts of the weight values are a decision, any counts `WeightsRT.WeightsFseOK` accepts; the
+description is read back by `readStats_fse`).  TREELESS literals (`set_repeat` of the Huffman table of an earlier block of the same frame)
+are in the serializer too and covered by `roundtrip_treeless` below, which is this statement for the wider class of tilings `FrameOKT`
+(`FrameOK2` = the tilings without treeless literals; `BlockRT.frameOKT_of_frameOK2`).  Not offered to the writer: the sequence tables
+and the Huffman table of a DICTIONARY (`set_repeat` / treeless in the first block that could use them). -/
 theorem roundtrip (a : HArgs) (bs : List BlockChoice2) (x : ByteArray) (dict : Frame.Dict)
     (hok : FrameOK2 dict.content a bs x) (hrep0 : SeqRT.repOf dict.ent.rep = repStart)
     (cap : Nat) (hcap : x.size ≤ cap) (o : Frame.Opts) (hml : o.magicless = false) (hmb : o.maxBlockSize = 0) :
     ∃ traces, Frame.decompressAll (serializeFrame2 a bs x) dict cap o = .ok (x, traces) :=
   BlockRT.frame_roundtrip_compressed a bs x dict hok hrep0 cap hcap o hml hmb
+
+open HeaderW BlockEnc BlockRT in
+/-- **roundtrip_treeless**: `roundtrip` for frames in which any compressed block may, in addition, use TREELESS literals
+(`LitChoice.treeless`; ZSTD_compressLiterals with `hType = set_repeat`: the literals are Huffman-coded with the table of the last earlier
+block OF THE SAME FRAME whose literals section wrote one - raw / RLE blocks and blocks with raw / RLE literals in between leave it in place -
+and the section carries no tree description).  `FrameOKT` threads that table through the block list (`BlockEnc.nextHuf`) exactly as
+`serializeBlocks2` does, starting from "none": a treeless block is allowed only behind a block that wrote a table, and only if every one of
+its literals has a code in that table and the section is smaller than the literals (`BlockRT.TreelessOK`); that is also exactly when the
+decoder accepts such a section (it fails with dictionary_corrupted when it holds no table).  The table re-used may have been described
+in either form (direct or FSE-compressed weights).  Not offered to the writer: re-using a DICTIONARY's Huffman table in the first block. -/
+theorem roundtrip_treeless (a : HArgs) (bs : List BlockChoice2) (x : ByteArray) (dict : Frame.Dict)
+    (hok : FrameOKT dict.content a bs x) (hrep0 : SeqRT.repOf dict.ent.rep = repStart)
+    (cap : Nat) (hcap : x.size ≤ cap) (o : Frame.Opts) (hml : o.magicless = false) (hmb : o.maxBlockSize = 0) :
+    ∃ traces, Frame.decompressAll (serializeFrame2 a bs x) dict cap o = .ok (x, traces) :=
+  BlockRT.frame_roundtrip_compressed_treeless a bs x dict hok hrep0 cap hcap o hml hmb
 
 open BlockEnc BlockRT in
 /-- **tableOK_of_distribution**: the table hypothesis of `block_roundtrip` / `roundtrip` (`BlockRT.TableOK`) follows from its distribution
